@@ -1,8 +1,34 @@
+//! Harness over `p2panda-sync`'s log-sync protocol.
+//!
+//! C19 exactly-the-missing-operations, C20 message grammar under concurrent store changes,
+//! C21 termination for any volume / transport capacity (state-based), C24 de-duplication buffer.
+
+mod c19;
+mod c20;
+mod c21;
+mod c24;
+mod chan;
+mod drive;
+mod fstore;
+mod memstore;
+mod model;
+mod pool;
+mod probe;
+mod session;
+
 use vh_common::Args;
 
 fn main() {
+    if std::env::args().nth(1).as_deref() == Some("PROBE") {
+        return probe::run();
+    }
     let args = Args::parse();
+    vh_common::quiet_panics();
     match args.prop.as_str() {
-        other => panic!("vh-sync does not serve {other} yet"),
+        "C19" => c19::run(&args),
+        "C20" => c20::run(&args),
+        "C21" => c21::run(&args),
+        "C24" => c24::run(&args),
+        other => panic!("vh-sync does not serve {other}"),
     }
 }
